@@ -165,6 +165,7 @@ fn unlock_table() {
 fn h(p: usize) -> usize {
     ((p >> 4).wrapping_mul(0x9E3779B97F4A7C15)) >> (64 - 16)
 }
+pub static MOVED_REALLOCS: std::sync::atomic::AtomicU64 = std::sync::atomic::AtomicU64::new(0);
 unsafe impl GlobalAlloc for Accounting {
     unsafe fn alloc(&self, layout: Layout) -> *mut u8 {
         let p = System.alloc(layout);
@@ -182,8 +183,25 @@ unsafe impl GlobalAlloc for Accounting {
     unsafe fn realloc(&self, p: *mut u8, layout: Layout, new_size: usize) -> *mut u8 {
         let tracking = TRACKING.load(Ordering::Relaxed);
         let was = if tracking { forget(p as usize, layout) } else { false };
+        if was {
+            // A tracked block always *moves* when it is resized (an allocator may do that, glibc rarely does when
+            // shrinking) and the old block is filled with 0xDD before it is released: a pointer taken before the
+            // resize reads garbage, and releasing it later is a release of an unknown block.
+            let new_layout = Layout::from_size_align_unchecked(new_size, layout.align());
+            let q = System.alloc(new_layout);
+            if q.is_null() {
+                record(p as usize, layout);
+                return q;
+            }
+            std::ptr::copy_nonoverlapping(p, q, layout.size().min(new_size));
+            std::ptr::write_bytes(p, 0xDD, layout.size());
+            System.dealloc(p, layout);
+            MOVED_REALLOCS.fetch_add(1, Ordering::Relaxed);
+            record(q as usize, new_layout);
+            return q;
+        }
         let q = System.realloc(p, layout, new_size);
-        if tracking && !q.is_null() && (was || here()) {
+        if tracking && !q.is_null() && here() {
             record(q as usize, Layout::from_size_align_unchecked(new_size, layout.align()));
         }
         q
